@@ -1086,6 +1086,9 @@ func (sb *schemaBuilder) buildPaginatedFieldWithFallback(typ reflect.Type, m *me
 		Paginated:         m.Paginated,
 		TextFilterMethods: m.TextFilterMethods,
 		SortMethods:       m.SortMethods,
+		// The custom FilterFuncs belong to the field, whichever resolver serves it.
+		FilterMethods:             m.FilterMethods,
+		TokenizeFilterTextMethods: m.TokenizeFilterTextMethods,
 	})
 	if err != nil {
 		return nil, err
